@@ -265,11 +265,18 @@ class Stream:
     _reals = []
 
 
-def numpy_stream_layer(get_stream, on_seed=None):
+def numpy_stream_layer(get_stream, on_seed=None, seed_contract=False):
     """Model of the numpy legacy global RNG backed by a Stream (get_stream() returns the current one)."""
     def seed(self, s=None):
         if on_seed is not None:
             on_seed(s)
+        if s is not None and seed_contract:          # numpy's documented contract for the legacy seed
+            from crosshair.tracers import NoTracing
+            if _has_sym(s) or isinstance(s, int):
+                if isinstance(s, float):
+                    raise TypeError("Cannot cast scalar from dtype('float64') to dtype('int64')")
+                if not 0 <= s <= 2 ** 32 - 1:
+                    raise ValueError("Seed must be between 0 and 2**32 - 1")
 
     def uniform(self, low=0.0, high=1.0, size=None):
         if size is not None:
@@ -347,6 +354,29 @@ class _Fut:
             raise self._exc
         return self._val
 
+    def done(self):
+        return True
+
+    def exception(self, timeout=None):
+        return self._exc
+
+    def cancelled(self):
+        return False
+
+
+class _DoneSet(list):
+    """result of wait(): iterable, len(), truthiness - like the sets concurrent.futures.wait returns"""
+    def __sub__(self, other):
+        return _DoneSet([x for x in self if x not in other])
+
+    def __or__(self, other):
+        return _DoneSet(list(self) + [x for x in other if x not in self])
+
+    def update(self, other):
+        for x in other:
+            if x not in self:
+                self.append(x)
+
 
 class LitePool:
     """In-process pool: submit() runs the callable; completion order is chosen by as_completed (sym.perm)."""
@@ -388,11 +418,39 @@ def pool_layer(on_submit=None, order_name="completion", order="any"):
             return fs
         perm = sym.perm(order_name, len(fs))
         return [fs[i] for i in perm]
+
+    def wait(fs, timeout=None, return_when="ALL_COMPLETED"):
+        """time is a solver variable: with a timeout, an arbitrary non-empty subset of the futures has finished when
+        the call returns (progress assumption: at least one more finishes per call); without one, all have"""
+        fs = list(fs)
+        if timeout is None or len(fs) <= 1:
+            return _DoneSet(fs), _DoneSet([])
+        done = [f for f in fs[:-1] if sym.fork("finished-within-the-timeout")] + [fs[-1]]
+        return _DoneSet(done), _DoneSet([f for f in fs if f not in done])
     # in replay mode the pool model stays in place (plain monkeypatch of concurrent.futures): completion order and
     # worker assignment are environment inputs recorded in the counterexample, and closures need no pickling
     return {_cf.ThreadPoolExecutor: mk_thread, _cf.ProcessPoolExecutor: mk_process, _cf.as_completed: as_completed,
+            _cf.wait: wait,
             "__replay__": [(_cf, "ThreadPoolExecutor", mk_thread), (_cf, "ProcessPoolExecutor", mk_process),
-                           (_cf, "as_completed", as_completed)]}
+                           (_cf, "as_completed", as_completed), (_cf, "wait", wait)]}
+
+
+# ------------------------------------------------------------------------------------ arbitrary set iteration order
+class ArbSet(set):
+    """a set whose iteration order is chosen by the solver (string hashing is salted per process: PYTHONHASHSEED)"""
+    def __iter__(self):
+        items = sorted(set.__iter__(self), key=repr)
+        if not hasattr(self, "_order"):
+            self._order = sym.perm("set-iteration-order", len(items))
+        return iter([items[i] for i in self._order])
+
+
+def s_set(*a):
+    return ArbSet(*a)
+
+
+def arbitrary_set_order_layer():
+    return {builtins.set: s_set}
 
 
 # ----------------------------------------------------------------------------------------------------- installer
